@@ -4,7 +4,13 @@
 Steps are the statements of the Go functions (extracted by factgen into `Vflow.Gen.ShutdownIR`):
 the statements of `shutdown()`, the body of the read loop, and the statements of `run()` that follow
 the loop (since the F21 repair: `close(queue)` — the read loop, the only sender, closes its queue
-itself once it has left the loop; `shutdown()` no longer does).
+itself once it has left the loop; `shutdown()` no longer does), and — since the F27 repair — the statements of
+`run()` BEFORE the loop that touch the template cache: `mCache = GetCache(file)` (`loadCache`: reading and parsing the
+file of the previous run, which takes as long as the file is large) and the atomic store of the "loaded" flag
+(`markLoaded`) that the guarded dump of `shutdown()` (`dumpIfLoaded`) tests.  `run()` and `shutdown()` are started by
+different statements of `main` with only the signal in between, so the shutdown goroutine can run any number of its
+steps before the reader has executed the first of its own: a `dump` of the still-nil cache rewrites the file of the
+previous run as an empty one (`wiped`).
 The interleaving model: the reader and the shutdown goroutine run their programs concurrently; a
 step is atomic.  Closing the queue a second time, or sending on it once it is closed, panics (Go
 semantics of `close` / `ch <- v`); both are recorded in `panicked`.
@@ -24,13 +30,17 @@ namespace Vflow.Shutdown
 /-- statements of `shutdown()` -/
 inductive SStep where
   | guardEnabled | setStop | log | sleep1s | dump | closeConn | closeQueue
+  | dumpIfLoaded   -- `if atomic.LoadInt32(&loaded) == 1 { cache.Dump(file) }` (F27 repair)
   | unrecognised (go : String)
 deriving Repr, DecidableEq
 
-/-- statements of the read loop, and of `run()` after the loop -/
+/-- statements of the read loop, and of `run()` after the loop and (those that touch the template cache) before it -/
 inductive RStep where
   | whileNotStop | getBuf | deadline1s | read | onErrorContinue | countUDP | enqueue
   | closeQueue | log
+  | loadCache      -- `cache = GetCache(file)`: the package-level cache variable is assigned the loaded templates
+  | markLoaded     -- `atomic.StoreInt32(&loaded, 1)`
+  | spawnRPC       -- `go ipfix.RPC(cache, …)`: hands the loaded cache to the RPC goroutine
   | unrecognised (go : String)
 deriving Repr, DecidableEq
 
@@ -40,10 +50,12 @@ inductive MStep where
   | unrecognised (go : String)
 deriving Repr, DecidableEq
 
-/-- the stop protocol of one listener: the statements of `shutdown()` and the statements of `run()`
-after the read loop (the loop body itself is fixed: `Props/C15.gen_read_loops`) -/
+/-- the stop protocol of one listener: the statements of `shutdown()`, the statements of `run()` before the read
+loop that touch the template cache, and the statements of `run()` after the loop (the loop body itself is fixed:
+`Props/C15.gen_read_loops`) -/
 structure Prog where
   shutdown : List SStep
+  beforeLoop : List RStep
   afterLoop : List RStep
 deriving Repr, DecidableEq
 
@@ -60,6 +72,7 @@ def Assume.all : List Assume := [⟨false, false⟩, ⟨false, true⟩, ⟨true,
 
 /-- reader program counter -/
 inductive RPc where
+  | starting (k : Nat) -- `run()` has been started; about to execute statement `k` of `beforeLoop`
   | atCheck      -- about to evaluate `!stop`
   | inRead       -- deadline armed, blocked in ReadFromUDP
   | havePacket   -- read returned a datagram; about to count and enqueue it
@@ -68,7 +81,7 @@ inductive RPc where
 deriving Repr, DecidableEq
 
 structure St where
-  rpc : RPc := .atCheck
+  rpc : RPc := .starting 0
   stop : Bool := false
   spc : Nat := 0            -- index into the shutdown program
   closed : Bool := false    -- queue closed
@@ -77,12 +90,23 @@ structure St where
   dumpedAfterStop : Bool := true
   panicked : Bool := false  -- a send on the closed queue, or a second close, happened
   readsAfterStop : Nat := 0 -- reads completed since stop was set (ghost)
+  cacheSet : Bool := false  -- the cache variable holds the templates loaded from the file (before: nil)
+  loadedFlag : Bool := false -- the atomic "loaded" flag
+  wiped : Bool := false     -- a dump of the nil cache has replaced the file of the previous run by an empty one (ghost)
+  dumpSkipped : Bool := false -- the guarded dump found the flag unset and left the file as it was (ghost)
+  everRead : Bool := false  -- the read loop has armed a read at least once in this run (ghost)
 deriving Repr, DecidableEq
 
 /-- reader steps enabled in `s` -/
 def readerSteps (p : Prog) (s : St) : List St :=
   match s.rpc with
-  | .atCheck => [if s.stop then { s with rpc := .leaving 0 } else { s with rpc := .inRead }]
+  | .starting k =>
+    match p.beforeLoop[k]? with
+    | none => [{ s with rpc := .atCheck }]
+    | some .loadCache => [{ s with rpc := .starting (k + 1), cacheSet := true }]
+    | some .markLoaded => [{ s with rpc := .starting (k + 1), loadedFlag := true }]
+    | some _ => [{ s with rpc := .starting (k + 1) }]
+  | .atCheck => [if s.stop then { s with rpc := .leaving 0 } else { s with rpc := .inRead, everRead := true }]
   | .inRead =>
     -- timeout / error → back to the check; a datagram → hand-off (unless the socket was closed)
     let back : St := { s with rpc := .atCheck, readsAfterStop := if s.stop then s.readsAfterStop + 1 else s.readsAfterStop }
@@ -109,7 +133,10 @@ def shutdownSteps (p : Prog) (a : Assume) (s : St) : List St :=
   | some .setStop => [{ s with stop := true, spc := s.spc + 1 }]
   | some .sleep1s =>
     if a.deadlines ∧ s.rpc = .inRead ∧ s.readsAfterStop = 0 ∧ ¬ s.connClosed then [] else [{ s with spc := s.spc + 1 }]
-  | some .dump => [{ s with dumped := true, dumpedAfterStop := s.stop, spc := s.spc + 1 }]
+  | some .dump => [{ s with dumped := true, dumpedAfterStop := s.stop, wiped := s.wiped || !s.cacheSet, spc := s.spc + 1 }]
+  | some .dumpIfLoaded =>
+    if s.loadedFlag then [{ s with dumped := true, dumpedAfterStop := s.stop, wiped := s.wiped || !s.cacheSet, spc := s.spc + 1 }]
+    else [{ s with dumpSkipped := true, spc := s.spc + 1 }]
   | some .closeConn => [{ s with connClosed := true, spc := s.spc + 1 }]
   | some .closeQueue =>
     if a.handoff ∧ s.rpc = .havePacket then [] else [{ s with closed := true, panicked := s.panicked || s.closed, spc := s.spc + 1 }]
